@@ -347,10 +347,35 @@ theorem hasNextKey_member (first : Bool) (k tl : Bytes) (pos : Nat) :
   · simp only [Bool.false_eq_true, if_false, List.singleton_append]; exact hasNextKey_comma k tl pos
   · simp only [if_true, List.nil_append, Nat.add_zero]; exact hasNextKey_first k tl pos
 
+/-- after a member's value, `.` / `e` / `E` is neither `,` nor `}` -/
+theorem hasNextKey_bad {r : Bytes} (h : BadHead r) (pos : Nat) : ∀ b r' p', hasNextKey env false r pos ≠ .ok b r' p' := by
+  obtain ⟨c, tl, rfl, hw, _, h2, h7⟩ := badHead_facts h
+  intro b r' p'
+  unfold hasNextKey
+  rw [withPeek_cons env _ hw]
+  simp [h7, h2]
+
+theorem mapLoop_bad (kk : KeyKind) (de : Bytes → Nat → TOut) {r : Bytes} (h : BadHead r) :
+    ∀ (n : Nat) (acc : List (TVal × TVal)) (pos : Nat) a r' p', mapLoop env kk de n false acc r pos ≠ .ok a r' p' := by
+  intro n
+  cases n with
+  | zero => intro acc pos a r' p'; simp [mapLoop]
+  | succ n =>
+    intro acc pos
+    unfold mapLoop
+    exact bind_not_ok (hasNextKey_bad h pos)
+
+theorem endMap_bad {r : Bytes} (h : BadHead r) (pos : Nat) : ∀ u r' p', (endMap env r pos).res ≠ .ok u r' p' := by
+  obtain ⟨c, tl, rfl, hw, _, _, h7⟩ := badHead_facts h
+  intro u r' p'
+  unfold endMap
+  rw [skipWs_cons hw]
+  simp [h7]
+
 /-- entries of an object read by `MapAccess` with key parser `deKey kk` and value parser `de`, against `mapAll` -/
 theorem mapLoop_text (kk : KeyKind) (hk : KeyAgree (deKey env kk) (FromValue.keyDe kk)) (de : Bytes → Nat → TOut)
     (fv : JV → FromValue.R) :
-    ∀ (kvs : List (Bytes × JV)), (∀ kv ∈ kvs, Spec.Utf8.validUtf8 kv.1 = true ∧ Agree1 de (fv kv.2) (T ext kv.2)) →
+    ∀ (kvs : List (Bytes × JV)), (∀ kv ∈ kvs, Spec.Utf8.validUtf8 kv.1 = true ∧ Agree1w de (fv kv.2) (T ext kv.2)) →
     ∀ (first : Bool) (acc : List (TVal × TVal)) (n : Nat) (rest : Bytes) (pos : Nat),
       (Tm ext first kvs ++ 0x7d :: rest).length < n →
       match FromValue.mapAll (FromValue.keyDe kk) fv kvs with
@@ -403,7 +428,7 @@ theorem mapLoop_text (kk : KeyKind) (hk : KeyAgree (deKey env kk) (FromValue.key
         | error e =>
           rw [hfx] at hel
           simp only at hel ⊢
-          exact bind_not_ok hel
+          exact bind_bad hel fun v r1 p1 hb => mapLoop_bad kk de hb n _ p1
         | ok y =>
           rw [hfx] at hel
           simp only at hel ⊢
@@ -432,7 +457,7 @@ include hext hflt hap in
 /-- maps: `deserialize_map` with the key kind's `MapKey` method against `MapDeserializer` + `MapKeyDeserializer` -/
 theorem agree_map (kk : KeyKind) (hk : KeyAgree (deKey env kk) (FromValue.keyDe kk)) (s : Schema) (f t : Nat) (v : JV)
     (hv : VOK v) (hd : DepthOK env t v)
-    (ih : ∀ kvs, v = .obj kvs → ∀ kv ∈ kvs, Agree1 (deTyped env f (t + 1) s) (FromValue.fromValue cfg' ext' s kv.2) (T ext kv.2)) :
+    (ih : ∀ kvs, v = .obj kvs → ∀ kv ∈ kvs, Agree1w (deTyped env f (t + 1) s) (FromValue.fromValue cfg' ext' s kv.2) (T ext kv.2)) :
     Agree1 (deTyped env (f + 1) t (.map kk s)) (FromValue.fromValue cfg' ext' (.map kk s) v) (T ext v) := by
   intro rest pos hs
   obtain ⟨c, tl, hT, hc⟩ := T_head ext hext v hv
@@ -442,7 +467,7 @@ theorem agree_map (kk : KeyKind) (hk : KeyAgree (deKey env kk) (FromValue.keyDe 
   cases v with
   | obj kvs =>
     have hel : ∀ kv ∈ kvs, Spec.Utf8.validUtf8 kv.1 = true ∧
-        Agree1 (deTyped env f (t + 1) s) (FromValue.fromValue cfg' ext' s kv.2) (T ext kv.2) :=
+        Agree1w (deTyped env f (t + 1) s) (FromValue.fromValue cfg' ext' s kv.2) (T ext kv.2) :=
       fun kv hx => ⟨(vok_member kvs kv hx hv).1, ih kvs rfl kv hx⟩
     have hloop := mapLoop_text ext kk hk (deTyped env f (t + 1) s) (FromValue.fromValue cfg' ext' s) kvs hel true []
       ((Tmembers ext kvs ++ 0x7d :: rest).length + 1) rest (pos + 1) (by simp [Tm])
